@@ -1,7 +1,7 @@
 SPECIFICATION Spec
 CONSTANTS
   Names <- N2
-  MaxToks = 6
+  MaxToks = 5
   MaxDepth = 2
   ScopedKinds <- AllKinds
 INVARIANTS StackIsLexical NoLeak ImplIsLexical Emit
